@@ -176,10 +176,15 @@ func validatorWorlds(thorough bool) {
 
 // txWorld: histories with transactions on top of the prelude (utxo and contract writes in the chain-status batch,
 // detach/attach of spends, votes, coinbase spends and contract registrations during reorganisations).
+var txWorldErr error
+
 func txWorld(net *labnet.Net, thorough bool) {
 	P, err := chainlab.NewPrelude(net, 16)
 	if err != nil {
-		ev.Fatal("prelude: %v", err)
+		// a crash-free node refusing the prelude is not a statement about crashes: the histories with
+		// transactions are left out (coordinator and workers alike) and the run is reported capped
+		txWorldErr = err
+		return
 	}
 	w := chainlab.NewWorld(net, P.Tip, P.Base)
 	btm := func(amount uint64, prog []byte) *types.TxOutput {
@@ -478,6 +483,9 @@ func main() {
 		xplore.Worker(spec)
 	}
 	run := ev.Start("C19", "fault_enumeration")
+	if txWorldErr != nil {
+		run.Capped(fmt.Sprintf("histories with transactions: could not be set up: %v", txWorldErr))
+	}
 	var items [][]int
 	for i := range hists {
 		items = append(items, []int{i})
